@@ -197,7 +197,22 @@ class C13:
         labels = ("sub", t, ("const", 1))
         loops = [l for l in s.loops.values() if l.kind == "for"]
         z = ("call", ("builtin", "zip"), (ev, labels), ())
-        if len(loops) != 1 or loops[0].iter != z or loops[0].conds:
+
+        def unwrap_labels(it):
+            """zip(events, labels) with the label array possibly converted to a list / tuple first"""
+            if it[0] == "call" and it[1] == ("builtin", "zip") and len(it[2]) == 2 and not it[3]:
+                b = it[2][1]
+                while True:
+                    if b[0] == "call" and b[1][0] == "attr" and b[1][2] == "tolist" and not b[2] and not b[3]:
+                        b = b[1][1]
+                    elif b[0] == "call" and b[1] in (("builtin", "list"), ("builtin", "tuple"), ("ext", "numpy.asarray"), ("ext", "numpy.array")) \
+                            and len(b[2]) == 1 and not b[3]:
+                        b = b[2][0]
+                    else:
+                        break
+                return ("call", it[1], (it[2][0], b), ())
+            return it
+        if len(loops) != 1 or unwrap_labels(loops[0].iter) != z or loops[0].conds:
             ctx.bad("R13.3", self.file, "group_sound_events", f"for ... in {show(loops[0].iter)[:60] if loops else '-'}",
                     "events must be distributed by iterating zip(sound_events, labels) in input order, unfiltered", s.node.lineno)
             return
@@ -229,6 +244,27 @@ class C13:
                             and not new[2] and not new[3]:
                         dd = table
                         okapp = True
+        two_stage = False
+        if not okapp and len(apps) == 1 and apps[0].term[2] == (se,) and all(c[0] == "inloop" for c in conjuncts(apps[0].live)):
+            # two stages: events are first collected into one plain list per label (created on first sight), the lists are
+            # wrapped into sequences afterwards
+            recv = apps[0].term[1][1]
+            table = None
+            if recv[0] == "sub" and recv[2] == lab:
+                table = recv[1]
+                created = table == ("call", ("ext", "collections.defaultdict"), (("builtin", "list"),), ())
+                if not created and table[0] == "alloc" and table[1] == "dict":
+                    absent = ("cmp", "notin", lab, table)
+                    sts = [e_ for e_ in s.of("store") if e_.term[1] == ("sub", table, lab) and L.id in e_.loops and e_.idx < apps[0].idx]
+                    created = len(sts) == 1 and sts[0].term[2] in (("list", ()), ("alloc", "list", sts[0].term[2][2] if len(sts[0].term[2]) > 2 else None)) \
+                        and [c for c in conjuncts(sts[0].live) if c[0] != "inloop"] == [absent]
+                if created:
+                    dd = table
+                    okapp = two_stage = True
+            elif recv[0] == "call" and recv[1][0] == "attr" and recv[1][2] == "setdefault" and recv[2][:1] == (lab,) and len(recv[2]) == 2 \
+                    and recv[2][1][0] in ("list", "alloc") and recv[1][1][0] == "alloc":
+                dd = recv[1][1]
+                okapp = two_stage = True
         if okapp:
             ctx.ok("R13.3", f"{self.file}:{apps[0].lineno} group_sound_events", "one unconditional append per event into the sequence of its label")
         else:
@@ -236,9 +272,31 @@ class C13:
                     "every event must be appended exactly once, unconditionally, to sequences[label].sound_events (a filter or a second "
                     "append breaks the partition)", apps[0].lineno if apps else s.node.lineno)
             return
+        rets = s.returns
+        if two_stage:
+            SEQ = ("global", "soundevent.data.sequences:Sequence", "class")
+            vals = ("call", ("attr", dd, "values"), (), ())
+            good = False
+            why = "the per-label lists are not each wrapped into one Sequence holding exactly their events"
+            if len(rets) == 1 and rets[0].term[0] == "comp" and rets[0].term[1] == "list" and len(rets[0].term[3]) == 1:
+                lid2, it2, conds2 = rets[0].term[3][0]
+                el2 = ("elem", lid2)
+                elt = rets[0].term[2]
+                if it2 in (vals, ("call", ("builtin", "list"), (vals,), ())) and not conds2 and elt[0] == "call" and elt[1] == SEQ:
+                    kw2 = callkw(elt)
+                    direct = kw2.get("sound_events") in (el2, ("call", ("builtin", "list"), (el2,), ()))
+                    fills = [c for c in s.calls if lid2 in c.loops and c.term[1][0] == "attr" and c.term[1][2] in ("extend", "append")
+                             and c.term[1][1] == ("attr", elt, "sound_events")]
+                    filled = (not elt[2] and not elt[3] and len(fills) == 1 and fills[0].term[1][2] == "extend" and fills[0].term[2] == (el2,)
+                              and all(c[0] == "inloop" for c in conjuncts(fills[0].live)))
+                    good = (direct and not fills) or filled
+            if good:
+                ctx.ok("R13.3", site, "returns one Sequence per label list (all its events, in order), in order of first appearance")
+            else:
+                ctx.bad("R13.3", self.file, "group_sound_events", f"return {show(rets[0].term)[:60] if rets else '-'}", why, s.node.lineno)
+            return
         seq_ok = dd == ("call", ("ext", "collections.defaultdict"), (("global", "soundevent.data.sequences:Sequence", "class"),), ()) or \
             (dd is not None and dd[0] == "alloc" and dd[1] == "dict")
-        rets = s.returns
         want = ("call", ("builtin", "list"), (("call", ("attr", dd, "values"), (), ()),), ())
         if seq_ok and len(rets) == 1 and rets[0].term == want:
             ctx.ok("R13.3", site, "returns list(sequences.values()) of a fresh per-label table")
